@@ -87,7 +87,10 @@ def reach_v(body, starts, env0=None, stop=(), forced=None, hits=None, fvals=None
             elif k == 'un' and rv['op'] == 'Not' and o['k'] in ('copy', 'move') and not o['pl']['p']:
                 v0 = e.get(o['pl']['l'])
                 if isinstance(v0, bool): val = not v0
-            elif k == 'discr' and not rv['pl']['p']:
+            elif k == 'ref' and not rv.get('mut') and not rv['pl']['p']:
+                val = e.get(rv['pl']['l'])               # a shared reference to a value of known variant (`opt.is_some()`, `match &res`)
+                if not isinstance(val, str): val = None
+            elif k == 'discr' and rv['pl']['p'] in ([], ['*']):
                 v0 = e.get(rv['pl']['l'])
                 if isinstance(v0, str): val = ('discr', V_DISCR[v0])
             if fvals and (bi, dl) in fvals: val = fvals[(bi, dl)]
@@ -338,9 +341,13 @@ class EnumProbes:
 
     def site(self): return self.body.site(self.probes[0][1]) if self.probes else self.body.site()
 
-    def reach(self, V, starts, env0=None, stop=(), hits=None):
-        forced = {p[1]: p[2][V] for p in self.probes if p[0] == 'switch'}
-        fvals = {(p[1], p[2]): p[3][V] for p in self.probes if p[0] == 'value'}
+    def assume(self, V):
+        """(forced switch targets, forced values) that say "the value is V" """
+        return ({p[1]: p[2][V] for p in self.probes if p[0] == 'switch'}, {(p[1], p[2]): p[3][V] for p in self.probes if p[0] == 'value'})
+
+    def reach(self, V, starts, env0=None, stop=(), hits=None, more_vals=None):
+        forced, fvals = self.assume(V)
+        if more_vals: fvals.update(more_vals)
         return reach_v(self.body, starts, env0, stop, forced, hits, fvals)
 
 
@@ -435,6 +442,33 @@ def subset_guard(ctx, rule, body, a_need, b_need, what):
     if not cands and not seen: ctx.bad(rule, 'T-GUARD', body.name, 'no test `%s` found' % what, body.site())
     else: ctx.bad(rule, 'T-GUARD', body.name, 'test `%s` does not guard the Ok-exits with the required polarity' % what, body.site(), seen='; '.join(seen)[:400])
     return None
+
+
+def subset_assumptions(ctx, body, a_need, b_need):
+    """{(bb, local): value} saying "A ⊆ B holds" at every place a SUBSET idiom inspects it (same table as subset_guard)"""
+    sl = lambda o: ctx.S.slice_operand(body, o)
+    out = {}
+    for c in body.calls:
+        if not ('BTreeSet' in c.name or 'HashSet' in c.name) or c.dst['p']: continue
+        if c.item == 'is_subset' and a_need(sl(c.args[0])) and b_need(sl(c.args[1])): out[(c.bb, c.dst['l'])] = True
+        if c.item == 'is_superset' and a_need(sl(c.args[1])) and b_need(sl(c.args[0])): out[(c.bb, c.dst['l'])] = True
+        if c.item == 'difference' and a_need(sl(c.args[0])) and b_need(sl(c.args[1])):
+            for n in body.calls:
+                if n.item == 'next' and c in sl(n.args[0]).call_objs and T.loop_of_next(body, n) is None and not n.dst['p']: out[(n.bb, n.dst['l'])] = 'Option::None'
+                if n.item == 'count' and c in sl(n.args[0]).call_objs:
+                    for bi, st in body.stmts():
+                        rv = st['rv']
+                        if rv['k'] == 'bin' and rv['op'] in ('Eq', 'Ne', 'Gt') and not st['dst']['p']:
+                            ks = [const_operand(body, o) for o in rv['ops']]
+                            if any(k is not None and usize_const(k) == 0 for k in ks) and any(o['k'] in ('copy', 'move') and n in sl(o).call_objs for o in rv['ops']):
+                                out[(bi, st['dst']['l'])] = (rv['op'] == 'Eq')
+    for lo in T.for_loops(body):
+        nextc, header, some_bb, none_bb, blocks = lo
+        if not a_need(sl(nextc.args[0])): continue
+        for c in body.calls:
+            if c.bb in blocks and c.item == 'contains' and ('BTreeSet' in c.name or 'HashSet' in c.name) and not c.dst['p'] and b_need(sl(c.args[0])) and nextc in sl(c.args[1]).call_objs:
+                out[(c.bb, c.dst['l'])] = True
+    return out
 
 
 # CONVERSION idioms: a conversion into T is reached through T's own impl or through the reciprocal blanket trait
@@ -580,6 +614,24 @@ def export_rules(ctx, name, keyty, qubo):
                  lambda a: a.has_call(r'used_decision_variable_ids') and a.has_field(INST, 'objective'),
                  lambda b: b.has_call(r'impl v1::Instance>::binary_ids') and not b.has_field(INST, 'objective'), 'used ids ⊆ binary ids')
     binary_ids_rules(ctx, R)
+    # ---- no other refusal: assume NONE of the stated refusal conditions holds — constraints empty, sense = V for every V != Maximize,
+    #      used ids ⊆ binary ids, (QUBO) every conversion of a term's ids into a pair succeeds — wherever the body inspects them
+    #      (all idiom tables above).  Then no Err-exit may be reachable: the export must succeed on every such instance.
+    vals = {(bb, l): emp for l, bb, emp, recv in emptiness_tests(body, on_constraints)}
+    vals.update(subset_assumptions(ctx, body,
+                                   lambda a: a.has_call(r'used_decision_variable_ids') and a.has_field(INST, 'objective'),
+                                   lambda b: b.has_call(r'impl v1::Instance>::binary_ids') and not b.has_field(INST, 'objective')))
+    if qubo:
+        for c in body.calls:
+            if re.search(CONV_PAIR, c.name) and not c.dst['p']: vals[(c.bb, c.dst['l'])] = 'Result::Ok'
+    SP = EnumProbes(ctx, body, 'v1::instance::Sense', src_need=lambda s: s.has_field(INST, 'sense'))
+    extra = set()
+    for V in sorted(allowed):
+        ctx.counters['cfg_paths'] += 1
+        extra |= SP.reach(V, [0], more_vals=vals) & body.err_exits()
+    ctx.check(not extra, R + '/guard/only-stated-refusals', 'T-GUARD', body.name,
+              'the export is refused although no active constraint remains, the sense is not Maximize, only binary variables are used%s: Err-exit at %s'
+              % (' and every term has at most two distinct variables' if qubo else '', [body.site(b) for b in sorted(extra)][:3]), body.site(min(extra)) if extra else body.site())
     # ---- the term loop: a loop over the objective's (ids, coefficient) items that writes the map
     is_map = lambda c: bool(re.search(r"(BTreeMap|btree_map::(Entry|OccupiedEntry|VacantEntry))::<('_, )?sorted_ids::%s, f64>" % keyty, c.name))
     def term_loop(lo):
@@ -1224,4 +1276,4 @@ def check(ctx):
     export_rules(ctx, 'as_pubo_format', 'BinaryIds', False)
     export_rules(ctx, 'as_qubo_format', 'BinaryIdPair', True)
     pair_rules(ctx)
-    ctx.floor('C11.as_pubo_format', 19); ctx.floor('C11.as_qubo_format', 25); ctx.floor('C11.pair', 10)
+    ctx.floor('C11.as_pubo_format', 20); ctx.floor('C11.as_qubo_format', 26); ctx.floor('C11.pair', 10)
